@@ -312,7 +312,7 @@ Proof.
   assert (SameSt : Inv st /\ Rel st s /\
              (forall x r, objs st x = Some r -> objs st x = Some r /\ contents st r = contents st r) /\
              (forall x, objs st x = None -> objs st x = None)) by (apply Same; auto).
-  destruct t as [o d|o|res src v|res src v|res src v|res|res src|res src|o src|o src|o src|o d|o src v|o|o|temps e];
+  destruct t as [o d|o|res src v|res src v|res src v|res|res src|res src|o src|o src|o src|o d|o src v|o|o|temps e|res src temps v];
     simpl in A; try discriminate; simpl in W; unfold fault_spec_top, fault_touched.
   - (* TNew *) apply Nat.leb_le in A. exists st. split.
     + eapply fault_top_first; eauto; try reflexivity; simpl; try tauto.
